@@ -1731,3 +1731,102 @@ func ruleReflectKind(c *Ctx, r *Reporter) {
 		r.anchorMissing("reflect.Value.UnsafePointer in the write path")
 	}
 }
+
+func init() {
+	register(&Rule{
+		ID: "LOWERBOUND-COVER", Props: []string{"C13"}, Floor: 1,
+		Doc: "lpm LowerBound: once the whole search prefix is matched (longestMatch == the query's prefix length) the node reached - it equals the query or is covered by it, so it and its subtree are >= the query - is pushed on the iterator stack on every path; no further comparison decides it",
+		Run: ruleLowerBoundCover,
+	})
+}
+
+func ruleLowerBoundCover(c *Ctx, r *Reporter) {
+	fn := c.Func("lpm", "Txn", "LowerBound")
+	if fn == nil {
+		r.anchorMissing("lpm.(Txn).LowerBound")
+		return
+	}
+	var isML func(v ssa.Value, seen map[ssa.Value]bool) bool
+	isML = func(v ssa.Value, seen map[ssa.Value]bool) bool {
+		if seen[v] {
+			return false
+		}
+		seen[v] = true
+		switch x := v.(type) {
+		case *ssa.Call:
+			sf := staticCallee(x)
+			return sf != nil && sf.Name() == "longestMatch"
+		case *ssa.Phi:
+			for _, e := range x.Edges {
+				if isML(e, seen) {
+					return true
+				}
+			}
+		}
+		return false
+	}
+	isQueryLen := func(v ssa.Value) bool {
+		if ex, ok := v.(*ssa.Extract); ok {
+			if call, ok := ex.Tuple.(*ssa.Call); ok {
+				if sf := staticCallee(call); sf != nil && sf.Name() == "DecodeLPMKey" {
+					return true
+				}
+			}
+		}
+		return false
+	}
+	n := 0
+	for _, ia := range allInstrs(fn) {
+		bo, ok := ia.In.(*ssa.BinOp)
+		if !ok || (bo.Op != token.EQL && bo.Op != token.NEQ) {
+			continue
+		}
+		if !(isML(bo.X, map[ssa.Value]bool{}) && isQueryLen(bo.Y)) && !(isML(bo.Y, map[ssa.Value]bool{}) && isQueryLen(bo.X)) {
+			continue
+		}
+		for _, ref := range *bo.Referrers() {
+			iff, ok := ref.(*ssa.If)
+			if !ok {
+				continue
+			}
+			n++
+			start := iff.Block().Succs[0]
+			if bo.Op == token.NEQ {
+				start = iff.Block().Succs[1]
+			}
+			// a return reachable from the "whole query matched" edge without pushing on the stack
+			seen := map[*ssa.BasicBlock]bool{}
+			var leak *ssa.Return
+			var walk func(b *ssa.BasicBlock)
+			walk = func(b *ssa.BasicBlock) {
+				if seen[b] || leak != nil {
+					return
+				}
+				seen[b] = true
+				for _, in := range b.Instrs {
+					if call, ok := in.(*ssa.Call); ok {
+						if bi, ok := call.Call.Value.(*ssa.Builtin); ok && bi.Name() == "append" && len(call.Call.Args) == 2 {
+							if sl, ok := call.Call.Args[1].Type().Underlying().(*types.Slice); ok {
+								if p, ok := sl.Elem().Underlying().(*types.Pointer); ok && namedTypeName(p.Elem()) == "lpmNode" {
+									return
+								}
+							}
+						}
+					}
+					if ret, ok := in.(*ssa.Return); ok {
+						leak = ret
+						return
+					}
+				}
+				for _, s := range b.Succs {
+					walk(s)
+				}
+			}
+			walk(start)
+			r.check(leak == nil, fmt.Sprintf("lpm.(Txn).LowerBound|a node reached with the whole query matched is always included#%d", n), c.posStr(instrPos(bo)), "every path from `matchLen == prefixLen` to the return pushes the node", "after the whole search prefix matched, another test decides whether the node is included: a stored prefix covered by the query (LowerBound(10.0.0.0/16) with 10.0.0.0/24 stored) can compare below the query's encoded key and is skipped together with its subtree")
+		}
+	}
+	if n == 0 {
+		r.undecided("lpm.(Txn).LowerBound|whole-query-matched test", c.posStr(fn.Pos()), "no comparison of longestMatch's result with the query's prefix length decides a branch")
+	}
+}
